@@ -503,7 +503,7 @@ def run(run):
     import time
     t_start = time.time()
     # ---- 1. operation histories ----
-    n_hist = 3000 if thorough else 1000
+    n_hist = 3000 if thorough else 800
     cases, meta = [], []
     hist = {k: 0 for k in OPS}
     hist.update({"raise": 0, "ok": 0, "property_fail_known": 0})
@@ -585,7 +585,7 @@ def run(run):
     cases = []
     cps_list = [[c] for c in list(range(0, 300)) + [0x2FFFF, 0x2FFFE, 0x1F600, 0xFFFF, 0x10000]]
     cps_list += [[92, c] for c in (117, 92, 85, 0, 34, 256)] + [[c, 92, 117] for c in (92, 0, 97)]
-    cps_list += [rand_cps(rng) for _ in range(600 if thorough else 300)]
+    cps_list += [rand_cps(rng) for _ in range(600 if thorough else 200)]
     for cps in cps_list:
         a = mk_strval(cps).as_string()
         cases.append(f"({g_nlist(cps)}, {g_nlist([ord(ch) for ch in a])})")
@@ -609,7 +609,7 @@ def run(run):
     LEX = ['"', '""', "\\", "u", "{", "}", "0", "4", "1", "a", "F", "g", "\\u{", "\\u", "\\u{41}", "\\u0041",
            "\\u{2ffff}", "\\u{30000}", "\\u{}", "\\u{000041}", "\\\"", "\n", " ", "ä", "\\x41", "\\u{e4}"]
     cases, texts = [], []
-    for _ in range(900 if thorough else 400):
+    for _ in range(900 if thorough else 300):
         body = "".join(rng.choice(LEX) for _ in range(rng.randint(0, 6)))
         text = '"' + body + '"'
         try:
@@ -637,7 +637,7 @@ def run(run):
     # ---- 3. literals through real pickle of SMTFormula ----
     cases, lits = [], []
     shist = {"ok_same": 0, "ok_changed": 0, "raise": 0, "known": 0}
-    n_smt = 3000 if thorough else 1000
+    n_smt = 3000 if thorough else 700
     pool = [[34], [97, 34, 98], [228], [92], [92, 117], [0], [92, 117, 123, 125], [34, 34], [97, 92], [92, 34],
             [0x1F600, 34, 0], [128], [255, 256], []]
     for i in range(n_smt):
@@ -694,7 +694,7 @@ def run(run):
     # ---- 4. CLI JSON trees ----
     cases, cmeta = [], []
     stderr = io.StringIO()
-    n_cli = 300 if thorough else 120
+    n_cli = 300 if thorough else 100
     for i in range(n_cli):
         st0 = gen_struct(rng, "<start>", rng.randint(2, 6), [rng.randint(2, 12)])
         ids = list(range(1, 200)); rng.shuffle(ids)
